@@ -255,14 +255,8 @@ def check_converters(rep, repo):
     fi = repo.need_method("Subgraph", "_load")
     w = Walker(repo, fi, self_class="Subgraph", inline=lambda f: False)
     ext_t = ("idx", ("call", ("attr", ("param", fi.params[1]), "split"), (("const", "."),), ()), ("const", -1))
-    disp = {}
-    for e in w.events:
-        if e.kind == "call" and e.target[0] == "mod" and e.target[1].startswith(LOADER + "."):
-            for g, pol in e.guards:
-                if pol and g[0] == "cmp" and g[1] == "==" and ext_t in (g[2], g[3]):
-                    other = g[2] if g[3] == ext_t else g[3]
-                    if other[0] == "const":
-                        disp[other[1]] = e.target[1].rsplit(".", 1)[1]
+    from ..schema import extension_dispatch
+    disp = extension_dispatch(w, ext_t, ("csv", "txt", "json"), LOADER)
     rep.fn("LOAD-dispatch", fi, f"extension -> loader: {disp}",
            disp == {"csv": "load_csv", "txt": "load_txt", "json": "load_json"},
            "each extension must be read by its own loader")
